@@ -163,8 +163,9 @@ impl Property for C05 {
     }
     fn strategy(&self, tier: Tier) -> BoxedStrategy<Case> {
         let direct: BoxedStrategy<Case> = {
-        (prop_oneof![1 => Just(0u8), 2 => Just(1u8), 4 => Just(2u8), 2 => Just(3u8)], proptest::collection::vec(op(), 1..=tier.pick(25usize, 45usize)))
-            .prop_map(|(start, mut ops)| {
+        (prop_oneof![1 => Just(0u8), 2 => Just(1u8), 4 => Just(2u8), 2 => Just(3u8)], proptest::collection::vec(op(), 1..=tier.pick(25usize, 45usize)), crate::engine::repeats())
+            .prop_map(|(start, ops, reps)| {
+                let mut ops = crate::engine::with_repeats(ops, &reps);
                 // most histories start with a usable world (the prefix is part of the case and shrinks with it)
                 let mut pre = match start {
                     0 => vec![],
